@@ -3175,14 +3175,17 @@ DString  * mmd_engine_convert_opml_to_text(mmd_engine * e) {
 	// Swap original and engine
 	char * temp = e->dstr->str;
 	size_t size = e->dstr->currentStringLength;
+	size_t buffer_size = e->dstr->currentStringBufferSize;
 
 	// Replace engine copy with original OPML text
 	e->dstr->str = original->str;
 	e->dstr->currentStringLength = original->currentStringLength;
+	e->dstr->currentStringBufferSize = original->currentStringBufferSize;
 
 	// Original now contains the processed text
 	original->str = temp;
 	original->currentStringLength = size;
+	original->currentStringBufferSize = buffer_size;
 
 	return original;
 }
@@ -3224,14 +3227,17 @@ DString  * mmd_engine_convert_itmz_to_text(mmd_engine * e) {
 	// Swap original and engine
 	char * temp = e->dstr->str;
 	size_t size = e->dstr->currentStringLength;
+	size_t buffer_size = e->dstr->currentStringBufferSize;
 
 	// Replace engine copy with original ITMZ text
 	e->dstr->str = original->str;
 	e->dstr->currentStringLength = original->currentStringLength;
+	e->dstr->currentStringBufferSize = original->currentStringBufferSize;
 
 	// Original now contains the processed text
 	original->str = temp;
 	original->currentStringLength = size;
+	original->currentStringBufferSize = buffer_size;
 
 	return original;
 }
